@@ -278,6 +278,11 @@ def _pick_or(cond, v, f0, i):
     if c is False:
         return f0(i)
     old = f0(i)
+    if isinstance(v, tuple) and isinstance(old, tuple) and len(v) == len(old):
+        # list of records (tuples of equal length): component-wise
+        return tuple(_pick_or(c, a, (lambda _i, b=b: b), i) for a, b in zip(v, old))
+    if isinstance(v, Opaque) and isinstance(old, Opaque) and v.name == old.name == 'datetime' and getattr(v, 'tz', None) == getattr(old, 'tz', None):
+        return Opaque('datetime', us=z3.If(c, to_z3(v.us), to_z3(old.us)), tz=v.tz, is_datetime=True)
     if any(isinstance(x, MaybeNan) or (isinstance(x, Opaque) and getattr(x, 'is_nan', False)) for x in (v, old)):
         a, b = MaybeNan.of(v), MaybeNan.of(old)
         return MaybeNan(z3.If(c, a.isnan, b.isnan), z3.If(c, a.val, b.val))
